@@ -139,14 +139,16 @@ def odoLoop (lim : Nat → Nat) : Nat → (Nat → Nat) → (Nat → Nat)
 def updateOdometer (n : Nat) (old lim : Nat → Nat) : Nat → Nat :=
   if n > 0 then odoLoop lim n (setAt old (n - 1) (old (n - 1) + 1)) else old
 
-/-- the stored length-`n` array with the entries of `f` (an ndarray holds values, not a recipe: this
-    also keeps the compiled model from re-evaluating the whole update history at every read) -/
-def freeze (n : Nat) (f : Nat → Nat) : Nat → Nat := fnOfList (listOfFn n f)
+/-- the stored index vector (an ndarray holds values, not a recipe) after `i` calls of
+    `update_odometer` starting from `np.zeros(n)` -/
+def iterOdoL (n : Nat) (lim : Nat → Nat) : Nat → List Nat
+  | 0 => List.replicate n 0
+  | i + 1 =>
+    let prev := iterOdoL n lim i
+    listOfFn n (updateOdometer n (fnOfList prev) lim)
 
-/-- the index vector after `i` calls of `update_odometer` starting from `np.zeros(n)` -/
-def iterOdo (n : Nat) (lim : Nat → Nat) : Nat → (Nat → Nat)
-  | 0 => fun _ => 0
-  | i + 1 => freeze n (updateOdometer n (iterOdo n lim i) lim)
+/-- entry `k` of the index vector after `i` odometer updates -/
+def iterOdo (n : Nat) (lim : Nat → Nat) (i : Nat) : Nat → Nat := fnOfList (iterOdoL n lim i)
 
 /-- `np.kron(A, B)` for `B` of shape `(r, c)` -/
 def kron (r c : Nat) (A B : Nat → Nat → Rat) : Nat → Nat → Rat :=
